@@ -103,6 +103,23 @@ mod sel {
         ran("hx_select_e2e::sel::x, y")
     }
 
+    // Display names that are legitimate paths but not valid regexes (only
+    // `--exact` can name them literally).
+    #[divan::bench(name = "tok(")]
+    fn tok_paren() {
+        ran("hx_select_e2e::sel::tok(")
+    }
+
+    #[divan::bench(name = "[")]
+    fn bracket() {
+        ran("hx_select_e2e::sel::[")
+    }
+
+    #[divan::bench(name = "C:\\dir")]
+    fn backslash() {
+        ran("hx_select_e2e::sel::C:\\dir")
+    }
+
     pub mod alpha {
         use super::ran;
 
